@@ -13,7 +13,7 @@ func (t *ATable) InvokeRenderCallbacks() {
 	ec := t.ErrorContainer
 	invokePropertyCallbacks(t.tableItselfCallbacks, CB_AT_RENDER_PRECELL, t, ec)
 	for _, col := range t.columns {
-		invokePropertyCallbacks(col.columnItselfCallbacks, CB_AT_RENDER_PRECELL, &col, ec)
+		invokePropertyCallbacks(col.columnItselfCallbacks, CB_AT_RENDER_PRECELL, col, ec)
 	}
 	if t.headerRow != nil {
 		t.headerRow.invokeRenderCallbacks(t, ec)
@@ -22,7 +22,7 @@ func (t *ATable) InvokeRenderCallbacks() {
 		row.invokeRenderCallbacks(t, ec)
 	}
 	for _, col := range t.columns {
-		invokePropertyCallbacks(col.columnItselfCallbacks, CB_AT_RENDER_POSTCELL, &col, ec)
+		invokePropertyCallbacks(col.columnItselfCallbacks, CB_AT_RENDER_POSTCELL, col, ec)
 	}
 	invokePropertyCallbacks(t.tableItselfCallbacks, CB_AT_RENDER_POSTCELL, t, ec)
 }
